@@ -118,7 +118,7 @@ def universal_call(c, call, hist_calls, bibs, float_heights=False):
         out.append(V('stage-only-moves-forward', ['stage-regressed', stage0, c.state], case, [stage0, c.state]))
     if lvl0 == 3:
         out.append(V('nothing-after-finished-or-drawn', ['accepted-when-decided', op, stage0], case, c.state))
-    if op == 'badtrial':
+    if op.startswith('badtrial'):
         out.append(V('accepted-exactly-when-allowed', ['wrongly-accepted', op, stage0, 'unknown trial letter'], case, 'accepted', 'RuleViolation'))
     if op.split(':')[0] == 'add' and stage0 != 'scheduled':
         out.append(V('accepted-exactly-when-allowed', ['wrongly-accepted', op, stage0, 'athletes join only before the first height'],
@@ -210,6 +210,8 @@ def alphabet(c, m, max_reg, max_total):
     calls.append(('add', m.order[0]))
     if hjimpl.VIA_TRIAL:
         calls.append(('badtrial', m.order[0]))
+        for cell in ('xxo', 'ox', 'xxxx', 'rx', 'xo', 'o-', ''):
+            calls.append(('badtrial:' + cell, m.order[len(cell) % len(m.order)]))
     if m.stage != 'scheduled':
         # a late entry carrying the optional keywords of a start-list entry is a late entry all the same
         for v in ('DNS', 'DQ', 'full'):
